@@ -128,12 +128,18 @@ pub enum W {
     CypherCreate,
     SparqlInsert,
     SparqlDelete,
+    /// syntactic variants of the creations (other planner branches): named variables, Cypher
+    CreateEdgeNamed,
+    CreateEdgeCypher,
+    InsertNodeNamed,
+    CreateEdgeReturn,
 }
 
 pub const WRITES: &[W] = &[
     W::InsertNodeGql, W::CreateNodeApi, W::DeleteNode, W::DetachDelete, W::CreateEdgeGql, W::CreateEdgeApi,
     W::DeleteEdge, W::SetNodeProp, W::RemoveNodeProp, W::SetEdgeProp, W::AddLabel, W::RemoveLabel, W::MergeCreate,
-    W::SetIndexedProp, W::CypherCreate, W::SparqlInsert, W::SparqlDelete,
+    W::SetIndexedProp, W::CypherCreate, W::SparqlInsert, W::SparqlDelete, W::CreateEdgeNamed, W::CreateEdgeCypher,
+    W::InsertNodeNamed, W::CreateEdgeReturn,
 ];
 
 impl W {
@@ -156,6 +162,10 @@ impl W {
             W::CypherCreate => "cypher_create",
             W::SparqlInsert => "sparql_insert",
             W::SparqlDelete => "sparql_delete",
+            W::CreateEdgeNamed => "create_edge_named",
+            W::CreateEdgeCypher => "create_edge_cypher",
+            W::InsertNodeNamed => "insert_node_named",
+            W::CreateEdgeReturn => "create_edge_return",
         }
     }
     /// perform the write through session `s`; returns Err(text) if the engine refused it
@@ -188,6 +198,10 @@ impl W {
                 W::CypherCreate => e(s.execute_cypher("CREATE (:P {uid: 102, v: 52})")),
                 W::SparqlInsert => e(s.execute_sparql("INSERT DATA { <http://s2> <http://p> <http://o2> }")),
                 W::SparqlDelete => e(s.execute_sparql("DELETE DATA { <http://s1> <http://p> <http://o1> }")),
+                W::CreateEdgeNamed => e(s.execute("MATCH (a:P {uid:1}), (b:P {uid:3}) CREATE (a)-[r:R {uid: 13}]->(b)")),
+                W::CreateEdgeCypher => e(s.execute_cypher("MATCH (a:P {uid:1}), (b:P {uid:3}) CREATE (a)-[r:R {uid: 13}]->(b)")),
+                W::InsertNodeNamed => e(s.execute("INSERT (x:P {uid: 100, v: 50, iv: 50})")),
+                W::CreateEdgeReturn => e(s.execute("MATCH (a:P {uid:1}), (b:P {uid:3}) CREATE (a)-[r:R {uid: 13}]->(b) RETURN a.uid")),
             }
         });
         match r {
@@ -198,7 +212,7 @@ impl W {
     /// the same write on the reference model
     pub fn apply_model(self, m: &mut Model, t: &mut BTreeSet<(String, String, String)>) {
         match self {
-            W::InsertNodeGql => m.add_node(100, &["P"], &[("uid", i(100)), ("v", i(50)), ("iv", i(50))]),
+            W::InsertNodeGql | W::InsertNodeNamed => m.add_node(100, &["P"], &[("uid", i(100)), ("v", i(50)), ("iv", i(50))]),
             W::CreateNodeApi => m.add_node(101, &["P"], &[("uid", i(101)), ("v", i(51)), ("iv", i(51))]),
             W::DeleteNode => {
                 m.del_node(4, false);
@@ -206,7 +220,7 @@ impl W {
             W::DetachDelete => {
                 m.del_node(2, true);
             }
-            W::CreateEdgeGql => m.add_edge(13, 1, 3, "R", &[("uid", i(13))]),
+            W::CreateEdgeGql | W::CreateEdgeNamed | W::CreateEdgeCypher | W::CreateEdgeReturn => m.add_edge(13, 1, 3, "R", &[("uid", i(13))]),
             W::CreateEdgeApi => m.add_edge(UID_EDGE_API, 3, 1, "R", &[]),
             W::DeleteEdge => {
                 m.del_edge(12);
@@ -846,6 +860,10 @@ pub fn run_matrix(rep: &mut crate::report::Report, scenarios: &[Sc], fail_commit
 #[derive(Clone, Debug)]
 pub enum PW {
     Insert { uid: u64, v: i64 },
+    /// `INSERT (x:P {..})` (named variable) / Cypher `CREATE (x:P {..})`
+    InsertStyled { uid: u64, v: i64, style: u8 },
+    /// named edge variable (GQL) / Cypher
+    CreateEdgeStyled { euid: u64, a: u64, b: u64, style: u8 },
     SetV { uid: u64, v: i64 },
     RemoveV { uid: u64 },
     AddLabel { uid: u64, l: &'static str },
@@ -862,6 +880,14 @@ impl PW {
     pub fn text(&self) -> String {
         match self {
             PW::Insert { uid, v } => format!("INSERT (:P {{uid: {uid}, v: {v}, iv: {v}}})"),
+            PW::InsertStyled { uid, v, style } => match style {
+                0 => format!("INSERT (x:P {{uid: {uid}, v: {v}, iv: {v}}})"),
+                _ => format!("CREATE (x:P {{uid: {uid}, v: {v}, iv: {v}}})"),
+            },
+            PW::CreateEdgeStyled { euid, a, b, style } => match style {
+                0 | 1 => format!("MATCH (a:P {{uid: {a}}}), (b:P {{uid: {b}}}) CREATE (a)-[r:R {{uid: {euid}}}]->(b)"),
+                _ => format!("MATCH (a:P {{uid: {a}}}), (b:P {{uid: {b}}}) CREATE (a)-[r:R {{uid: {euid}}}]->(b) RETURN a.uid"),
+            },
             PW::SetV { uid, v } => format!("MATCH (n:P {{uid: {uid}}}) SET n.v = {v}"),
             PW::RemoveV { uid } => format!("MATCH (n:P {{uid: {uid}}}) REMOVE n.v"),
             PW::AddLabel { uid, l } => format!("MATCH (n:P {{uid: {uid}}}) SET n:{l}"),
@@ -877,6 +903,7 @@ impl PW {
     pub fn run(&self, s: &Session) -> Result<(), String> {
         let r = catch(|| match self {
             PW::SparqlInsert { .. } | PW::SparqlDelete { .. } => s.execute_sparql(&self.text()).map(|_| ()),
+            PW::InsertStyled { style: 1.., .. } | PW::CreateEdgeStyled { style: 1, .. } => s.execute_cypher(&self.text()).map(|_| ()),
             _ => s.execute(&self.text()).map(|_| ()),
         });
         match r {
@@ -888,7 +915,7 @@ impl PW {
     /// returns the uids of nodes / edge-uids this write created (for the rollback rule)
     pub fn apply_model(&self, m: &mut Model, t: &mut BTreeSet<(String, String, String)>) -> (Vec<u64>, Vec<u64>) {
         match self {
-            PW::Insert { uid, v } => {
+            PW::Insert { uid, v } | PW::InsertStyled { uid, v, .. } => {
                 m.add_node(*uid, &["P"], &[("uid", i(*uid as i64)), ("v", i(*v)), ("iv", i(*v))]);
                 return (vec![*uid], vec![]);
             }
@@ -915,7 +942,7 @@ impl PW {
             PW::DeleteIsolated { uid } | PW::DetachDelete { uid } => {
                 m.del_node(*uid, true);
             }
-            PW::CreateEdge { euid, a, b } => {
+            PW::CreateEdge { euid, a, b } | PW::CreateEdgeStyled { euid, a, b, .. } => {
                 if m.nodes.contains_key(a) && m.nodes.contains_key(b) {
                     m.add_edge(*euid, *a, *b, "R", &[("uid", i(*euid as i64))]);
                     return (vec![], vec![*euid]);
@@ -1009,7 +1036,7 @@ pub fn serial_history(rep: &mut crate::report::Report, seed: u64, case: u64, rol
             let w = match r.below(12) {
                 0 | 1 => {
                     next_uid += 1;
-                    PW::Insert { uid: next_uid, v: r.range(0, 40) }
+                    if r.chance(0.3) { PW::InsertStyled { uid: next_uid, v: r.range(0, 40), style: r.below(2) as u8 } } else { PW::Insert { uid: next_uid, v: r.range(0, 40) } }
                 }
                 2 | 3 => PW::SetV { uid: pick_uid(&mut r), v: r.range(0, 40) },
                 4 => PW::RemoveV { uid: pick_uid(&mut r) },
@@ -1021,7 +1048,7 @@ pub fn serial_history(rep: &mut crate::report::Report, seed: u64, case: u64, rol
                 }
                 8 | 9 => {
                     next_uid += 1;
-                    PW::CreateEdge { euid: next_uid, a: pick_uid(&mut r), b: pick_uid(&mut r) }
+                    if r.chance(0.4) { PW::CreateEdgeStyled { euid: next_uid, a: pick_uid(&mut r), b: pick_uid(&mut r), style: [0u8, 2][r.below(2)] } } else { PW::CreateEdge { euid: next_uid, a: pick_uid(&mut r), b: pick_uid(&mut r) } }
                 }
                 10 => {
                     next_uid += 1;
@@ -1032,7 +1059,8 @@ pub fn serial_history(rep: &mut crate::report::Report, seed: u64, case: u64, rol
                 }
             };
             kinds.insert(match &w {
-                PW::Insert { .. } => "insert",
+                PW::Insert { .. } | PW::InsertStyled { .. } => "insert",
+                PW::CreateEdgeStyled { .. } => "create_edge",
                 PW::SetV { .. } => "set",
                 PW::RemoveV { .. } => "remove_prop",
                 PW::AddLabel { .. } => "add_label",
